@@ -303,7 +303,7 @@ int POOL_tryAdd(POOL_ctx* ctx, POOL_function function, void* opaque)
 {
     assert(ctx != NULL);
     ZSTD_pthread_mutex_lock(&ctx->queueMutex);
-    if (isQueueFull(ctx)) {
+    if (isQueueFull(ctx) || ctx->shutdown) {   /* POOL_add_internal() drops the job once shutdown is set */
         ZSTD_pthread_mutex_unlock(&ctx->queueMutex);
         return 0;
     }
